@@ -1374,7 +1374,7 @@ func (e *c12Engine) finish(c *C12Case, ex *c12Exec, f *Findings) *CaseResult {
 
 // seqHang: the sequential shadow run itself got stuck.
 func (e *c12Engine) seqHang(c *C12Case, plan *c12Plan, f *Findings) *CaseResult {
-	v := Violation{Property: "C12", Class: "deadlock:sequential", Detail: "a single caller, with nobody else using the forest, got stuck in " + plan.hang + ": a call did not return within 8 s (a lock left behind by an earlier call?)"}
+	v := Violation{Property: "C12", Class: "deadlock:sequential", Detail: "a single caller, with nobody else using the forest, got stuck in " + plan.hang + ": a call did not return within 8 s (a lock left behind by an earlier call, or a loop that does not end)"}
 	cr := &CaseResult{Stats: NewStats(), Case: c, NonTrivial: true, Digest: mix64(c.Seed)}
 	if f != nil && f.Matches(v) {
 		cr.Stats.Known["C12:"+v.Class]++
